@@ -108,6 +108,7 @@ type world struct {
 	byHash map[chainhash.Hash]*node
 	main   []*node
 	warps  []*node // leaves of the time-warp branches
+	long   []*node // the long branch of the long-branch script
 }
 
 // requiredBits re-implements btcd's (unexported) next-difficulty rule; every
@@ -259,6 +260,7 @@ var paramSets = []struct {
 	minDiff    bool
 }{
 	{true, 2016, true}, {false, 4, false}, {false, 4, true}, {false, 8, false}, {true, 2016, false}, {false, 8, true},
+	{false, 146, false}, // long-branch script only: a retarget whose look-back lies more than a day of blocks back
 }
 
 func (w *world) spacing(style int) int64 {
@@ -492,6 +494,25 @@ func (w *world) build(t *tr.W) {
 	w.judge()
 }
 
+// buildLong: a short main chain and ONE long competing branch (more than two retarget intervals of
+// 146 blocks) forking off near genesis, so that the branch contains a retarget height whose
+// look-back block lies inside the branch, more than 144 headers behind.  Constant spacing keeps the
+// difficulty where it is; every header is valid.
+func (w *world) buildLong(t *tr.W) {
+	gen := w.nodes[0]
+	w.main = append([]*node{gen}, w.extend(gen, 10+w.rng.Intn(4), 0)...)
+	fp := w.main[1+w.rng.Intn(3)]
+	cur := fp
+	for i := 0; i < 300+w.rng.Intn(10); i++ {
+		cur = w.mine(cur, cur.hdr.Timestamp.Unix()+600, "ok")
+		w.long = append(w.long, cur)
+	}
+	w.ts.now = time.Unix(cur.hdr.Timestamp.Unix()+3600, 0)
+	t.Hit("checkpoints.0")
+	t.Hit("time.long")
+	w.judge()
+}
+
 func allOk(n *node) bool {
 	for ; n != nil; n = n.parent {
 		if n.kind != "ok" {
@@ -510,6 +531,7 @@ type sys struct {
 	bh     headerfs.BlockHeaderStore
 	fs     *failStore
 	fh     headerfs.FilterHeaderStore
+	cs     *neutrino.ChainService // the public lookups (GetBlockHash, GetBlockHeader, GetBlockHeight, BestBlock) over the same stores
 	bm     *neutrino.VerifBM
 	peers  []*neutrino.ServerPeer // index = peer id - 1
 	cand   []bool
@@ -610,6 +632,7 @@ func newSys(w *world, npeers int, rng *rand.Rand) (*sys, error) {
 		return nil, err
 	}
 	s.fs = &failStore{BlockHeaderStore: s.bh}
+	s.cs = &neutrino.ChainService{BlockHeaders: s.bh, RegFilterHeaders: s.fh}
 	if s.bm, err = neutrino.VerifNewBM(w.params, s.fs, s.fh, w.ts); err != nil {
 		return nil, err
 	}
@@ -786,6 +809,35 @@ func (s *sys) dump(res string, best int, bl string) string {
 		}
 	}
 	b.WriteString("]")
+	// the same questions asked through the ChainService's public lookups: every height (again,
+	// after every event - also the heights asked before a reorganisation), every known hash, the best block
+	b.WriteString(" csbyh [")
+	for h := 0; h < len(s.w.nodes)+2; h++ {
+		hash, err := s.cs.GetBlockHash(int64(h))
+		if err != nil {
+			break
+		}
+		if h > 0 {
+			b.WriteByte(' ')
+		}
+		fmt.Fprintf(&b, "%d", s.idOfHash(*hash))
+	}
+	b.WriteString("] cstip ")
+	if bs, err := s.cs.BestBlock(); err != nil {
+		b.WriteString("E")
+	} else {
+		fmt.Fprintf(&b, "%d:%d", s.idOfHash(bs.Hash), bs.Height)
+	}
+	bad := 0
+	for _, n := range s.w.nodes {
+		_, h1, e1 := s.bh.FetchHeader(&n.hash)
+		h2, e2 := s.cs.GetBlockHeight(&n.hash)
+		hd, e3 := s.cs.GetBlockHeader(&n.hash)
+		if (e1 == nil) != (e2 == nil) || (e1 == nil) != (e3 == nil) || e1 == nil && (uint32(h2) != h1 || hd.BlockHash() != n.hash) {
+			bad++
+		}
+	}
+	fmt.Fprintf(&b, " csbad %d", bad)
 	return b.String()
 }
 
@@ -954,6 +1006,15 @@ func (s *sys) contradictCheckpoint(rng *rand.Rand) []*node {
 	return cands[rng.Intn(len(cands))]
 }
 
+func containsNode(ns []*node, x *node) bool {
+	for _, n := range ns {
+		if n == x {
+			return true
+		}
+	}
+	return false
+}
+
 // filter hashes: any deterministic function of the block will do
 func filterHash(n *node) chainhash.Hash {
 	return chainhash.DoubleHashH(append([]byte("filter"), n.hash[:]...))
@@ -962,9 +1023,16 @@ func filterHash(n *node) chainhash.Hash {
 // ------------------------------------------------------------ one case
 
 func runCase(t *tr.W, rng *rand.Rand, nev int, script string) {
-	ps := rng.Intn(len(paramSets))
+	ps := rng.Intn(len(paramSets) - 1)
+	if script == "long" {
+		ps = len(paramSets) - 1
+	}
 	w := newWorld(rng, ps)
-	w.build(t)
+	if script == "long" {
+		w.buildLong(t)
+	} else {
+		w.build(t)
+	}
 	t.Hit(fmt.Sprintf("params.%d", ps))
 	npeers := 3
 	s, err := newSys(w, npeers, rng)
@@ -1165,6 +1233,18 @@ func runCase(t *tr.W, rng *rand.Rand, nev int, script string) {
 		t.Op(fmt.Sprintf("backlog %d", h), s.dump(res, best, bl))
 	}
 
+	if script == "long" {
+		// the sync peer gives us the short chain, then reveals the long one in a single message; a
+		// second long branch (lighter) and some filter-header traffic follow
+		t.Hit("script.long-branch")
+		newpeer(1)
+		headers(1, w.main[1:], "main")
+		headers(1, w.long, "long-branch")
+		cfwrite()
+		backlog()
+		headers(2, w.long[len(w.long)-3:], "known")
+		return
+	}
 	// a sync peer is usually there from the start
 	if rng.Intn(8) > 0 {
 		p := 1 + rng.Intn(2)
@@ -1176,7 +1256,7 @@ func runCase(t *tr.W, rng *rand.Rand, nev int, script string) {
 
 	for ev := 0; ev < nev; ev++ {
 		p := 1 + rng.Intn(npeers)
-		x := rng.Intn(106)
+		x := rng.Intn(109)
 		switch {
 		case x < 14: // extend the stored tip
 			tp := tip()
@@ -1264,7 +1344,7 @@ func runCase(t *tr.W, rng *rand.Rand, nev int, script string) {
 					bhs[i] = headerfs.BlockHeader{BlockHeader: n.hdr, Height: uint32(n.height)}
 				}
 				if err := s.bh.WriteHeaders(bhs...); err != nil {
-					panic(err)
+					continue
 				}
 				t.Hit("ev.import.blocks")
 			}
@@ -1274,7 +1354,7 @@ func runCase(t *tr.W, rng *rand.Rand, nev int, script string) {
 				nf = 1 + rng.Intn(newTip-s.ftip)
 				prev, _, err := s.fh.ChainTip()
 				if err != nil {
-					panic(err)
+					continue // the stores are already broken (an earlier oracle failure says so)
 				}
 				last := *prev
 				var fhs []headerfs.FilterHeader
@@ -1287,7 +1367,7 @@ func runCase(t *tr.W, rng *rand.Rand, nev int, script string) {
 				fhs[len(fhs)-1].HeaderHash = chain[s.ftip+nf].hash
 				fhs[len(fhs)-1].Height = uint32(s.ftip + nf)
 				if err := s.fh.WriteHeaders(fhs...); err != nil {
-					panic(err)
+					continue
 				}
 				t.Hit("ev.import.filters")
 			}
@@ -1308,7 +1388,75 @@ func runCase(t *tr.W, rng *rand.Rand, nev int, script string) {
 			if b := s.contradictCheckpoint(rng); b != nil && rng.Intn(2) == 0 {
 				headers(p, b, "contradict-checkpoint")
 			}
-		case x == 105: // a reorganisation in which one RollbackLastBlock FAILS (the case ends here)
+		case x >= 106 && x < 108: // a fork that is NOT heavier, padded with a valid header that does not connect
+			// to it, so that the work of the whole message exceeds the displaced work
+			sp := s.peerID(s.bm.Digest().SyncPeer)
+			if sp == 0 || len(s.stored) < 3 {
+				continue
+			}
+			tipH := int32(len(s.stored) - 1)
+			floor := int32(0)
+			for _, c := range w.params.Checkpoints {
+				if c.Height <= tipH {
+					floor = c.Height
+				}
+			}
+			var cands [][]*node
+			for _, tgt := range w.nodes {
+				if s.onStored(tgt) {
+					continue
+				}
+				fp := tgt
+				for fp != nil && !s.onStored(fp) {
+					fp = fp.parent
+				}
+				if fp == nil || fp.height < floor || fp.height >= tipH {
+					continue
+				}
+				b := pathTo(fp, tgt)
+				ok := true
+				nw, ow := new(big.Int), new(big.Int)
+				for _, n := range b {
+					ok = ok && n.valid
+					nw.Add(nw, n.work)
+					for _, c := range w.params.Checkpoints {
+						if c.Height == n.height {
+							ok = false
+						}
+					}
+				}
+				for _, n := range s.stored[fp.height+1:] {
+					ow.Add(ow, n.work)
+				}
+				if !ok || nw.Cmp(ow) > 0 {
+					continue
+				}
+				// pad with the latest valid headers (by timestamp) that do not connect, until heavier
+				last := b[len(b)-1]
+				for tries := 0; tries < 4 && nw.Cmp(ow) <= 0; tries++ {
+					var pad *node
+					for _, n := range w.nodes {
+						if n.valid && n.parent != last && n != last && !containsNode(b, n) &&
+							(pad == nil || n.hdr.Timestamp.After(pad.hdr.Timestamp)) {
+							pad = n
+						}
+					}
+					if pad == nil {
+						break
+					}
+					b = append(b, pad)
+					nw.Add(nw, pad.work)
+					last = pad
+				}
+				if nw.Cmp(ow) > 0 {
+					cands = append(cands, b)
+				}
+			}
+			if len(cands) == 0 {
+				continue
+			}
+			headers(sp, cands[rng.Intn(len(cands))], "padded-unconnected")
+		case x == 105 || x == 108: // a reorganisation in which one RollbackLastBlock FAILS (the case ends here)
 			sp := s.peerID(s.bm.Digest().SyncPeer)
 			if sp == 0 {
 				continue
@@ -1360,8 +1508,24 @@ func runCase(t *tr.W, rng *rand.Rand, nev int, script string) {
 			s.fs.failRollback = k
 			r := guard(func() { s.bm.Headers(s.peers[sp-1], hs) })
 			s.fs.failRollback = 0
+			oldTip := s.stored[len(s.stored)-1]
 			t.Op(fmt.Sprintf("headersfrb %d %s %d", sp, ids(b), k), s.dump(r, 0, "[]"))
-			return
+			if r != "ok" {
+				return // the code as it is panics ("Rollback failed"): the case ends here
+			}
+			// the handler survived a rollback that failed half-way: go on, starting with a header that
+			// extends the OLD tip (what a peer that knows nothing of all this sends next)
+			t.Hit("ev.headers.failrollback.survived")
+			var ok []*node
+			for _, c := range oldTip.children {
+				if c.valid {
+					ok = append(ok, c)
+				}
+			}
+			if len(ok) > 0 {
+				c := ok[rng.Intn(len(ok))]
+				headers(1+sp%npeers, append([]*node{c}, pathTo(c, randDesc(rng, c, rng.Intn(3)))...), "after-failed-rollback")
+			}
 		case x < 31: // a reorganisation and the new branch's filter headers with a SLOW notification sink,
 			// then a subscriber registers (backlog request from this goroutine)
 			sp := s.peerID(s.bm.Digest().SyncPeer)
@@ -1620,5 +1784,8 @@ func Run(t *tr.W, thorough bool) {
 	}
 	for i := 0; i < ncases; i++ {
 		runCase(t, rng, 18+rng.Intn(30), "")
+		if i == ncases/3 || i == 2*ncases/3 {
+			runCase(t, rng, 0, "long") // a few long-branch cases per run
+		}
 	}
 }
